@@ -46,6 +46,29 @@ macro_rules! each {
     };
 }
 
+/// like `each!` but for operations through `core::hash::Hasher` / `std::io::Write`, which
+/// `NeonHash` does not implement (src/aarch64.rs has no impl_write!/impl_hasher!): the Neon arm
+/// reports `unsupported`.
+macro_rules! each_t {
+    ($s:expr, $out:expr, $h:ident => $e:expr) => {
+        match $s {
+            AnyHasher::Portable($h) => $e,
+            AnyHasher::Auto($h) => $e,
+            #[cfg(target_arch = "x86_64")]
+            AnyHasher::Sse($h) => $e,
+            #[cfg(target_arch = "x86_64")]
+            AnyHasher::Avx($h) => $e,
+            #[cfg(target_arch = "aarch64")]
+            AnyHasher::Neon(_) => {
+                $out.s("unsupported");
+                return;
+            }
+            #[cfg(all(target_family = "wasm", target_feature = "simd128"))]
+            AnyHasher::Wasm($h) => $e,
+        }
+    };
+}
+
 /// CPU features as the harness sees them (std detection natively; constants elsewhere).
 #[derive(Clone, Copy)]
 pub struct Cpu {
@@ -434,14 +457,14 @@ impl Machine {
                         out.s("ok");
                     }
                     b"hwrite" => {
-                        each!(s, x => CoreHasher::write(x, d));
+                        each_t!(s, out, x => CoreHasher::write(x, d));
                         out.s("ok");
                     }
                     _ => {
                         #[cfg(feature = "std")]
                         {
                             if op == b"iowrite" {
-                                let r = each!(s, x => std::io::Write::write(x, d));
+                                let r = each_t!(s, out, x => std::io::Write::write(x, d));
                                 match r {
                                     Ok(k) => {
                                         out.s("n=");
@@ -450,7 +473,7 @@ impl Machine {
                                     Err(_) => out.s("err"),
                                 }
                             } else {
-                                let r = each!(s, x => std::io::Write::write_all(x, d));
+                                let r = each_t!(s, out, x => std::io::Write::write_all(x, d));
                                 out.s(if r.is_ok() { "ok" } else { "err" });
                             }
                         }
@@ -469,7 +492,7 @@ impl Machine {
                 #[cfg(feature = "std")]
                 {
                     let mut rd: &[u8] = &scratch[..len];
-                    let r = each!(s, x => std::io::copy(&mut rd, x));
+                    let r = each_t!(s, out, x => std::io::copy(&mut rd, x));
                     match r {
                         Ok(k) => {
                             out.s("n=");
@@ -493,13 +516,13 @@ impl Machine {
                         out.bytes_hex(&c);
                     }
                     b"finish" => {
-                        let r = each!(s, x => CoreHasher::finish(&*x));
+                        let r = each_t!(s, out, x => CoreHasher::finish(&*x));
                         out.u64_hex(r);
                     }
                     b"flush" => {
                         #[cfg(feature = "std")]
                         {
-                            let r = each!(s, x => std::io::Write::flush(x));
+                            let r = each_t!(s, out, x => std::io::Write::flush(x));
                             out.s(if r.is_ok() { "ok" } else { "err" });
                         }
                         #[cfg(not(feature = "std"))]
